@@ -217,6 +217,10 @@ func corpus() [][2]geom.Polygonal {
 		{geom.MultiPolygon{{}, sq(0, 0, 2, 2)}, sq(1, 1, 3, 3)},
 		{geom.MultiPolygon{{}, sq(0, 0, 2, 2)}, bx(-1, -1, 3, 3)},
 		{bx(-1, -1, 3, 3), geom.MultiPolygon{sq(0, 0, 2, 2), {}}},
+		{sq(0, 0, 2, 2), geom.MultiPolygon{{}, sq(1, 1, 3, 3)}}, // an empty member BEFORE a non-empty one in the argument
+		{bx(-1, -1, 3, 3), geom.MultiPolygon{{}, sq(0, 0, 2, 2)}},
+		{bx(0, 0, 2, 2), geom.MultiPolygon{{}, sq(1, 1, 3, 3), {}}},
+		{geom.MultiPolygon{sq(0, 0, 2, 2)}, geom.MultiPolygon{sq(5, 5, 6, 6), {}, sq(1, 1, 3, 3)}},
 		{geom.Polygon{{}}, sq(0, 0, 1, 1)},
 		{sq(0, 0, 4, 4), geom.Polygon{{}, {{X: 1, Y: 1}, {X: 3, Y: 1}, {X: 2, Y: 3}}}},
 		{geom.Polygon{{{X: 0, Y: 0}, {X: 4, Y: 0}, {X: 4, Y: 4}, {X: 0, Y: 4}}, {{X: 1, Y: 1}, {X: 3, Y: 1}, {X: 3, Y: 3}, {X: 1, Y: 3}}},
@@ -261,6 +265,10 @@ func gen(seed uint64, tier string) {
 		}
 		fmt.Fprintf(out, "op %s %s | %s\n", opNames[(i+int(seed))%4], vproto.GeomToks(c[0]), vproto.GeomToks(c[1]))
 	}
+	// a result ring longer than 128 (thorough: 1024) vertices: the comb with a bite out of its corner
+	for _, o := range []string{"D", "U", "X"} {
+		fmt.Fprintf(out, "op %s %s | %s\n", o, vproto.GeomToks(bigCases(tier == "thorough")[0][0]), vproto.GeomToks(bx(-1.5, -1.5, 0.5, 0.5)))
+	}
 	kinds := []string{"PG", "MPG", "B"}
 	for i := 0; i < npairs; i++ {
 		ka, kb := kinds[i%3], kinds[(i/3)%3]
@@ -268,7 +276,7 @@ func gen(seed uint64, tier string) {
 		a, b := genPair(r, ka, kb, class)
 		closed := r.Intn(5) != 0
 		f := scaleFor(r)
-		emit(shapes.ScaleGeom(a.ToGeom(1, closed), f).(geom.Polygonal), shapes.ScaleGeom(b.ToGeom(1, closed), f).(geom.Polygonal))
+		emit(withEmptyMember(r, shapes.ScaleGeom(a.ToGeom(1, closed), f).(geom.Polygonal)), withEmptyMember(r, shapes.ScaleGeom(b.ToGeom(1, closed), f).(geom.Polygonal)))
 	}
 	// histories: the SAME two operand objects, their coordinates overwritten in place between calls
 	for h := 0; h < npairs/25; h++ {
@@ -314,6 +322,21 @@ func gen(seed uint64, tier string) {
 			fmt.Fprintf(out, "cc %s %s | %s\n", o, vproto.GeomToks(c[0]), vproto.GeomToks(c[1]))
 		}
 	}
+}
+
+// withEmptyMember: one multi-polygon in eight gets a member polygon without rings at a random
+// position (a valid operand: it contributes no point).
+func withEmptyMember(r *vproto.Rng, g geom.Polygonal) geom.Polygonal {
+	mp, ok := g.(geom.MultiPolygon)
+	if !ok || r.Intn(8) != 0 {
+		return g
+	}
+	k := r.Intn(len(mp) + 1)
+	o := make(geom.MultiPolygon, 0, len(mp)+1)
+	o = append(o, mp[:k]...)
+	o = append(o, geom.Polygon{})
+	o = append(o, mp[k:]...)
+	return o
 }
 
 func scaleFor(r *vproto.Rng) float64 {
